@@ -30,6 +30,7 @@ import (
 	"fmt"
 	"io"
 	"io/ioutil"
+	"math"
 	"net"
 	"runtime"
 	"strings"
@@ -1577,6 +1578,9 @@ func (w *writeQueryFrame) buildFrame(framer *framer, streamID int) error {
 }
 
 func (f *framer) writeQueryFrame(streamID int, statement string, params *queryParams, customPayload map[string][]byte) error {
+	if err := checkValueCount(len(params.values)); err != nil {
+		return err
+	}
 	if len(customPayload) > 0 {
 		f.payload()
 	}
@@ -1586,6 +1590,15 @@ func (f *framer) writeQueryFrame(streamID int, statement string, params *queryPa
 	f.writeQueryParams(params)
 
 	return f.finish()
+}
+
+// checkValueCount reports an error if n values can not be expressed in the
+// [short] count field of a request.
+func checkValueCount(n int) error {
+	if n > math.MaxUint16 {
+		return fmt.Errorf("gocql: query has %d values, the protocol allows at most %d", n, math.MaxUint16)
+	}
+	return nil
 }
 
 type frameBuilder interface {
@@ -1615,6 +1628,9 @@ func (e *writeExecuteFrame) buildFrame(fr *framer, streamID int) error {
 }
 
 func (f *framer) writeExecuteFrame(streamID int, preparedID []byte, params *queryParams, customPayload *map[string][]byte) error {
+	if err := checkValueCount(len(params.values)); err != nil {
+		return err
+	}
 	if len(*customPayload) > 0 {
 		f.payload()
 	}
@@ -1666,6 +1682,14 @@ func (w *writeBatchFrame) buildFrame(framer *framer, streamID int) error {
 }
 
 func (f *framer) writeBatchFrame(streamID int, w *writeBatchFrame, customPayload map[string][]byte) error {
+	if len(w.statements) > math.MaxUint16 {
+		return fmt.Errorf("gocql: batch has %d statements, the protocol allows at most %d", len(w.statements), math.MaxUint16)
+	}
+	for i := range w.statements {
+		if err := checkValueCount(len(w.statements[i].values)); err != nil {
+			return err
+		}
+	}
 	if len(customPayload) > 0 {
 		f.payload()
 	}
